@@ -297,7 +297,7 @@ func (g *Generator) generateBytesFieldUnmarshal(gf *protogen.GeneratedFile, fiel
 	}
 
 	gf.P("// Decode ", field.Desc.Name(), " from ", encoding.String(), " to standard base64")
-	gf.P(`if v, ok := raw["`, jsonName, `"]; ok {`)
+	gf.P(`if v, ok := raw["`, jsonName, `"]; ok && string(v) != "null" {`)
 	gf.P("var s string")
 	gf.P("if err := json.Unmarshal(v, &s); err == nil {")
 
